@@ -337,6 +337,23 @@ class Interp:
             if n is not None:
                 return [VInt(self.facts.norm(v.start + i * v.step)) for i in range(max(0, int(n)))]
         if isinstance(v, VZip):
+            conc = [p for p in v.parts if isinstance(p, (VList, VTuple))]
+            if conc and len(conc) < len(v.parts):
+                n = min(len(p.items) for p in conc)
+                cols = []
+                for p in v.parts:
+                    if isinstance(p, (VList, VTuple)):
+                        cols.append(list(p.items[:n]))
+                    else:
+                        sl = self.sym_length(p)
+                        if sl is None:
+                            cols.append(self.iter_concrete(p)[:n])
+                        else:
+                            c = self.facts.compare(sl[0], ">=", n)
+                            if c is not True:
+                                raise Unmodelled(f"zip of a list of length {n} with a sequence of length {sl[0]!r} (not known to be longer)")
+                            cols.append([sl[1](P.const(i)) for i in range(n)])
+                return [VTuple(tuple(x)) for x in zip(*cols)]
             parts = [self.iter_concrete(p) for p in v.parts]
             return [VTuple(tuple(x)) for x in zip(*parts)]
         if isinstance(v, VEnumerate):
@@ -362,9 +379,12 @@ class Interp:
         if isinstance(v, VSeq):
             return self.facts.norm(v.length), (lambda k: v.get(self.facts.norm(v.lo + k)))
         if isinstance(v, VZip):
-            subs = [self.sym_length(p) for p in v.parts]
+            subs = [self.sym_length(p) if not isinstance(p, (VList, VTuple)) else None for p in v.parts]
+            if all(s is None for s in subs):
+                return None
             if any(s is None for s in subs):
-                raise Unmodelled("zip of mixed iterables")
+                # zip stops at the shortest: with a concrete part the iteration is concrete
+                return None
             n = subs[0][0]
             for m, _ in subs[1:]:
                 if not self.facts.eq(n, m):
@@ -604,6 +624,8 @@ class Interp:
         if e.id in fr.env:
             return fr.env[e.id]
         r = self.model.resolve(fr.f.module, e)
+        if r == "builtins.Ellipsis":
+            return VOpaque("Ellipsis")
         if r is not None:
             if r in self.model.classes:
                 return VFunc(r)
@@ -736,6 +758,8 @@ class Interp:
             return self.call_method(r, f"__r{name}__", [l], {}, fr, node)
         # scalars
         sl, sr = _as_coef(l), _as_coef(r)
+        if isinstance(l, VFloat) and l.x == 0 and isinstance(op, (ast.Mult, ast.Div)) and sr is not None:
+            return VFloat(0.0)
         if sl is not None and sr is not None and not isinstance(l, VTensor) and not isinstance(r, VTensor):
             if isinstance(op, ast.Mult):
                 return VScalar(sl * sr)
@@ -861,8 +885,19 @@ class Interp:
             return VBool(sym == "!=")
         if isinstance(l, VOpaque) and sym in ("==", "!="):
             return VBool(sym == "!=")
+        if isinstance(l, VFloat) and isinstance(r, VInt) and r.p.const_value() is not None:
+            r = VFloat(float(r.p.const_value()))
+        if isinstance(l, VInt) and isinstance(r, VFloat) and l.p.const_value() is not None:
+            l = VFloat(float(l.p.const_value()))
         if isinstance(l, VFloat) and isinstance(r, VFloat):
             return VBool({"==": l.x == r.x, "!=": l.x != r.x, "<": l.x < r.x, "<=": l.x <= r.x, ">": l.x > r.x, ">=": l.x >= r.x}[sym])
+        if sym in ("==", "!=") and type(l) is not type(r) and isinstance(l, (VSlice, VNone, VOpaque, VStr, VTuple, VList, VInt)) \
+                and isinstance(r, (VSlice, VNone, VOpaque, VStr, VTuple, VList, VInt, VFunc)):
+            # values of different kinds are never equal (slice vs Ellipsis, int vs None, ...)
+            if not ((isinstance(l, VOpaque) and l.tag.startswith("user")) or (isinstance(r, VOpaque) and r.tag.startswith("user"))) \
+                    or isinstance(l, (VSlice, VNone)) or isinstance(r, (VSlice, VNone)) or (isinstance(r, VOpaque) and r.tag == "Ellipsis") \
+                    or (isinstance(l, VOpaque) and l.tag == "Ellipsis"):
+                return VBool(sym == "!=")
         raise Unmodelled(f"comparison {sym} of {type(l).__name__} and {type(r).__name__}")
 
     def seq_compare(self, l, r):
@@ -1119,7 +1154,9 @@ def _as_coef(v):
         c = v.p.const_value()
         if c is not None:
             return Coef(c)
-        return None
+        from .net import _size_coef
+        sc = _size_coef(v.p)
+        return sc if sc is not None else Coef.sym("(" + repr(v.p) + ")")
     if isinstance(v, VFloat):
         from fractions import Fraction
         return Coef(Fraction(v.x).limit_denominator(10 ** 12))
